@@ -241,7 +241,7 @@ def impl(c):
     if op == "edits":
         def run():
             wv = mkwav(c)
-            states, untouched = [], True
+            states, untouched, derived = [], True, []
             for e in c["edits"]:
                 k = e[0]
                 if k == "ins":
@@ -260,7 +260,13 @@ def impl(c):
                 else:
                     raise KeyError(k)
                 states.append(wv.frames.hex())
-            return {"states": states, "untouched": untouched}
+                # what the SAME living object reports about itself after the edit (round 3, C16-v1 / C18-v1: a frame
+                # count or an unpacked-sample cache that an edit forgets to refresh)
+                if len(wv.frames) % wv.sampleWidth == 0:
+                    derived.append([wv.duration, list(wv.getSamples(0.0, wv.duration)) == list(audio.convertFromBytes(wv.frames, wv.sampleWidth))])
+                else:
+                    derived.append(None)
+            return {"states": states, "untouched": untouched, "derived": derived}
         return T.call(run)
     if op == "invdel":
         def run():
@@ -477,6 +483,14 @@ def oracle(c, r):
                     return Failure(dict(sig, edit=e[0], clause="samples"),
                                    f"step {step} {e[:3] if e[0] != 'cat' else e[0]} at rate {rate} width {w}: {len(cur)} -> {len(got)} samples, not the list-model result")
             cur = got
+            d = r[1].get("derived", [None] * (step + 1))[step]
+            if got is not None and d is not None:
+                if not math.isclose(d[0], len(got) / rate, rel_tol=1e-15, abs_tol=0.0):
+                    return Failure(dict(sig, edit=e[0], clause="duration-after-edit"),
+                                   f"step {step} {e[0]}: the recording holds {len(got)} samples at {rate} Hz but reports duration {d[0]!r}")
+                if not d[1]:
+                    return Failure(dict(sig, edit=e[0], clause="samples-after-edit"),
+                                   f"step {step} {e[0]}: getSamples(0, duration) is not the recording's samples after the edit")
         return None
     if op == "invdel":
         G = decode(bytes.fromhex(c["g"]), w)
